@@ -4,7 +4,6 @@ import (
 	"bytes"
 	"encoding/json"
 	"fmt"
-	"math/rand/v2"
 	"os"
 	"path/filepath"
 	"regexp"
@@ -21,11 +20,12 @@ type job struct {
 	tc     *tcase
 	labels map[string]bool
 	fast   *tresult // filled after the fast run (for cross validation)
+	batch  string   // name of the batch the case currently runs in
 }
 
 func runC23(c *mon.Ctx) {
 	initTypes()
-	c.Rule("case = fresh mtproto.Conn + K (1..9) goroutines blocked in Conn.Invoke with known msg ids (+ optionally one in Conn.Ping) + 1..8 server payloads, run in a child process " +
+	c.Rule("case = fresh mtproto.Conn + K (1..6) goroutines blocked in Conn.Invoke with known msg ids (+ optionally one in Conn.Ping) + 1..8 server payloads, run in a child process " +
 		"(fast: verif hook VerifHandleMessage; slow: payload encrypted by the reference model and fed to the real read loop of mtproto.New/Run through a fake transport). " +
 		"Payload sources: (i) every file of _fuzz/handle_message/corpus; (ii) generated service messages: rpc_result with result / rpc_error / gzip / pong inside, bad_msg_notification, " +
 		"bad_server_salt, msgs_ack, pong, new_session_created, future_salts, msg_detailed_info, updates, unknown and truncated types, containers / nested containers / gzip of those, " +
@@ -199,6 +199,7 @@ func runC23(c *mon.Ctx) {
 					}
 					outs := mon.RunBatch(c, "c23-"+mode, fmt.Sprintf("%s-%06d", mode, s.lo), inputs, mon.BatchOpts{MemLimitMB: 2048, Timeout: 15 * time.Minute, MaxProcs: 2})
 					for k, o := range outs {
+						js[s.lo+k].batch = fmt.Sprintf("%s-%06d", mode, s.lo)
 						j.check(js[s.lo+k], o, mode)
 					}
 					os.RemoveAll(filepath.Join(c.Out, fmt.Sprintf("batch-%s-%06d", mode, s.lo)))
@@ -279,7 +280,8 @@ func runDeep(c *mon.Ctx, j *judge) {
 				c.Inconclusive(fmt.Sprintf("deep %v: %s", s, o.Class))
 			default:
 				c.Eval(1)
-				c.Violate("crash|"+o.Class+"|"+crashFrame(o.Stderr)+"|deep-"+s.Shape, map[string]any{"spec": s, "class": o.Class, "stderr": o.Stderr, "batch": name,
+				c.Violate(crashSig(o.Class, fullStderr(c, name, o.Stderr))+"|deep-"+s.Shape, map[string]any{"spec": s, "class": o.Class, "stderr": o.Stderr, "batch": name,
+					"td_frame":     crashFrame(fullStderr(c, name, o.Stderr)),
 					"child_limits": fmt.Sprintf("RLIMIT_AS %d MiB, GOMEMLIMIT %d MiB", o2as(name), o2as(name)*3/16),
 					"note": "payload = innermost updatesTooLong wrapped spec.depth times (container / gzip_packed / alternating); rebuilt deterministically by the c23-deep child; " +
 						"a container nest of depth d is 24*d+4 bytes long"})
@@ -318,6 +320,30 @@ type judge struct {
 
 var frameRe = regexp.MustCompile(`(?m)^(github\.com/gotd/td/[^\s(]+(?:\([^)]*\))?[^\s(]*)\(`)
 
+// fullStderr returns the complete stderr of the child run whose (shortened) stderr is short.
+func fullStderr(c *mon.Ctx, batch, short string) string {
+	files, _ := filepath.Glob(filepath.Join(c.Out, "batch-"+batch, "stderr-*.txt"))
+	head := short
+	if len(head) > 200 {
+		head = head[:200]
+	}
+	for _, f := range files {
+		if data, err := os.ReadFile(f); err == nil && head != "" && strings.HasPrefix(string(data), head) {
+			return string(data)
+		}
+	}
+	return short
+}
+
+// crashSig: class + innermost gotd/td function of the crashing goroutine. The allocation that fails
+// first under memory exhaustion is arbitrary, so out-of-memory deaths carry no frame.
+func crashSig(class, stderr string) string {
+	if class == "fatal:oom" {
+		return "crash|" + class
+	}
+	return "crash|" + class + "|" + crashFrame(stderr)
+}
+
 // crashFrame: innermost gotd/td function of the crashing goroutine.
 func crashFrame(stderr string) string {
 	m := frameRe.FindStringSubmatch(stderr)
@@ -353,7 +379,7 @@ func (j *judge) check(jb *job, o mon.Outcome, mode string) {
 		j.mu.Lock()
 		j.crashes++
 		j.mu.Unlock()
-		c.Violate("crash|"+o.Class+"|"+crashFrame(o.Stderr), wit(map[string]any{"class": o.Class, "stderr": o.Stderr}))
+		c.Violate(crashSig(o.Class, fullStderr(c, jb.batch, o.Stderr)), wit(map[string]any{"class": o.Class, "stderr": o.Stderr}))
 		return
 	}
 	var res tresult
@@ -569,7 +595,7 @@ func (j *judge) check(jb *job, o mon.Outcome, mode string) {
 		// "handler already called" aborts the enclosing container, "callback not set" does not).
 		comparable := i < len(tc.Must) && tc.Must[i] != ""
 		if !tc.Modeled && len(tc.Must) == 0 {
-			comparable = true
+			comparable = len(tc.Steps) == 1 // between the steps of an unmodeled sequence nothing waits for re-sends
 			for _, st := range tc.Steps {
 				for _, id := range tc.IDs {
 					if bytes.Count(st.P, le64(id)) > 1 {
@@ -671,7 +697,7 @@ func replay(c *mon.Ctx, j *judge) {
 			c.Distinct("replay/" + o.Class)
 			c.Distinct("replay")
 			if o.Class != "ok" {
-				c.Violate("crash|"+o.Class+"|"+crashFrame(o.Stderr)+"|deep-"+rf.Witness.Spec.Shape, map[string]any{"spec": rf.Witness.Spec, "class": o.Class, "stderr": o.Stderr})
+				c.Violate(crashSig(o.Class, fullStderr(c, "replay", o.Stderr))+"|deep-"+rf.Witness.Spec.Shape, map[string]any{"spec": rf.Witness.Spec, "class": o.Class, "stderr": o.Stderr, "batch": rf.Witness.Batch})
 			}
 		}
 	case rf.Witness.Case != nil:
@@ -684,11 +710,9 @@ func replay(c *mon.Ctx, j *judge) {
 		for _, o := range outs {
 			c.Distinct("replay/" + o.Class)
 			c.Distinct("replay")
-			j.check(&job{tc: rf.Witness.Case}, o, mode)
+			j.check(&job{tc: rf.Witness.Case, batch: "replay"}, o, mode)
 		}
 	default:
 		c.Inconclusive("replay file has no case")
 	}
 }
-
-var _ = rand.New
